@@ -117,7 +117,7 @@ struct Runner {
   std::map<std::string, unsigned long> classes;
   std::vector<J> first_samples;
   std::map<uint64_t, J> low_samples;  // smallest hashes
-  J biggest;
+  J biggest, any_sample;
   size_t biggest_size = 0;
   std::vector<Failure> failures;
   uint64_t digest = 1469598103934665603ULL;
@@ -149,6 +149,7 @@ struct Runner {
     if (r.discard) discards++;
     for (auto &c : r.classes) classes[c]++;
     digest = fnv1a(&r.digest, sizeof r.digest, digest);
+    if (any_sample.t == J::NUL && r.sample.t != J::NUL) any_sample = r.sample;  // so that samples is never empty
     if (r.nontrivial && r.ok && !r.discard) {
       bool fresh = nontrivial.insert(r.hash).second;
       if (fresh && r.sample.t != J::NUL) {
@@ -272,6 +273,7 @@ struct Runner {
     for (auto &s : first_samples) sm.push(s);
     for (auto &s : low_samples) sm.push(s.second);
     if (biggest.t != J::NUL) sm.push(biggest);
+    if (sm.a.empty() && any_sample.t != J::NUL) sm.push(any_sample);
     j.set("samples", sm);
     J fl = J::arr();
     for (auto &f : failures) {
